@@ -34,9 +34,30 @@ M3_322 == <<3, 2, 2>>
 M3_433 == <<4, 3, 3>>
 G3_211 == <<2, 1, 1>>
 G3_222 == <<2, 2, 2>>
+\* a splittable reply and two replies of NOT multipart-capable types that are split all the same (MORE flag):
+\* vendor / unknown-type statistics, desc / aggregate; one shares the splittable reply's xid, one does not
+T3o_flow == <<"flow", "vendor", "desc">>
+T3o_port == <<"port", "unk", "aggr">>
+T3o_table == <<"table", "vendor", "aggr">>
+T3o_queue == <<"queue", "unk", "desc">>
+X3o_112 == <<1, 1, 2>>
+X3o_121 == <<1, 2, 1>>
+M3o == <<3, 3, 2>>
+G3o == <<2, 1, 1>>
+M3ow == <<4, 3, 2>>
+G3ow == <<2, 2, 1>>
+\* the same under every listener mode of the raw per-part event
+T2o_flow == <<"flow", "vendor">>
+T2o_port == <<"port", "aggr">>
+T2o_table == <<"table", "unk">>
+T2o_queue == <<"queue", "desc">>
+M2o == <<3, 2>>
+G2o == <<1, 1>>
+OthersMore == {"echo", "pktin", "portstatus", "barrier", "flowrem", "error", "config",
+               "vendormsg", "echoreply", "hello", "features"}
 \* everything at once (simulation / trace validation)
-T6 == <<"flow", "flow", "table", "port", "queue", "desc", "aggr">>
-X6 == <<1, 2, 1, 2, 1, 2, 1>>
-M6 == <<8, 8, 8, 8, 8, 1, 1>>
-G6 == <<99, 99, 99, 99, 99, 99, 99>>
+T9 == <<"flow", "flow", "table", "port", "queue", "desc", "aggr", "vendor", "unk">>
+X9 == <<1, 2, 1, 2, 1, 2, 1, 1, 2>>
+M9 == <<8, 8, 8, 8, 8, 2, 2, 3, 3>>
+G9 == <<99, 99, 99, 99, 99, 99, 99, 99, 99>>
 ====
